@@ -23,6 +23,7 @@ EventOK(e) ==
         occ == Strs(e.before, "pipeline")
         visited == {s \in DOMAIN D : Occurrences(occ, s) > 0}
         fails == \E s \in visited : Fails("exact", env, D[s])
+        refd == UNION {{D[s][i].v : i \in {j \in 1..Len(D[s]) : D[s][j].t \in {"ref", "req", "dflt"}}} : s \in DOMAIN D}
     IN /\ ~e.panic
        /\ IF fails THEN e.err                                         \* a failed expansion is reported
           ELSE /\ ~e.err
@@ -31,7 +32,7 @@ EventOK(e) ==
                /\ \A s \in DOMAIN D :
                      \A i \in 1..Len(D[s]) :
                         CASE D[s][i].t \in {"ref", "req"} -> Cnt(e, D[s][i].v) = Occurrences(occ, s)   \* read exactly once per occurrence
-                          [] D[s][i].t = "esc" -> Cnt(e, D[s][i].v) = 0                                \* never expanded a second time
+                          [] D[s][i].t = "esc" -> Cnt(e, D[s][i].v) = 0 \/ D[s][i].v \in refd                 \* never expanded a second time (a variable that is ALSO referenced elsewhere is held to that count)
                           [] OTHER -> TRUE
 
 Init == l = 1 /\ bad = {} /\ mach = {}
